@@ -22,12 +22,24 @@ copies (never default-constructed: F8), changed WITHOUT going through the instan
 `x.ps[i].f = v`, `x.s.r[i] = v`, `x.u.a[i] = v`, ...); after every change `==` / `!=` (both orders), the hash of equal hashable
 instances and `bool()` of four twins (all changes / the same changes / all but the last / untouched) are compared with the
 property's predicate applied recursively (same type and every field equal, structure-valued fields field by field).
+
+Faulted definition histories (harness/v4_c17.py): structures declared with the first fields of a generated list (integers of 1..8
+bytes, bit-field runs, enums / flag, char / wchar (arrays), integer arrays, a nested structure, float; packed / aligned, compiled /
+interpreted, both endiannesses), to which the rest is added later: by ordinary `S.add_field(...)`, in `with S.start_update():`
+blocks, and in at least one block whose body RAISES after 0..2 successful add_field calls (unknown type name, add_field with None /
+a type name / a missing argument, the caller's own Exception / KeyError / BaseException) and whose exception the caller handles;
+behind it further fields are added by ordinary add_field calls outside any block.  After the fault and the later steps the
+class must be a structure value type exactly like the one-shot declaration of the same fields: keyword construction with every
+field, attribute read-back, dumps equal to the one-shot class's, `==` / `!=` / hash of instances made three ways (keywords,
+assignment on S(), parse), for EVERY field (the late ones included) a pair differing in exactly that field is unequal, bool
+against any(fields) on random / all-zero / one-field-non-zero instances, S() holding every field's zero value, positional /
+keyword / partial construction against assignment on S(), assignment of every field local to that field's bits and to the instance.
 """
 from __future__ import annotations
 
 import itertools
 
-from .. import defs, impl, refimpl, s6_c17, u4_c17
+from .. import defs, impl, refimpl, s6_c17, u4_c17, v4_c17
 from ..common import Case, Result, mkrng
 from ..structprops import rand_bytes
 
@@ -46,7 +58,12 @@ def run(env) -> Result:
                 "only-non-zero instance for every field, hash-then-assign histories against a never-hashed twin, boundary-value assignments with "
                 "bit-level locality. u4_c17: in-place changes of container-valued members (array elements, fields of structures in arrays / nested "
                 "structures, below unions and arrays of unions) of parsed / keyword-initialised structures and unions, ==/!=/hash/bool of four twins "
-                "against the recursive field-wise predicate. distinct = "
+                "against the recursive field-wise predicate. v4_c17: definition histories with a fault (load of the first fields, then add_field / "
+                "start_update() steps of which at least one update block is left through a handled exception after 0..2 fields, then ordinary "
+                "add_field calls outside any block; packed/aligned x compiled/interpreted x endianness): on the class after the fault and after "
+                "the later steps keyword construction with every field, read-back, dumps against the one-shot declaration, ==/!=/hash of equal "
+                "instances made by keywords / assignment / parse, a differing pair for every field, bool on random / zero / one-non-zero-field "
+                "instances, defaults, partial construction, per-field assignment locality (bit masks from the one-shot reader). distinct = "
                 "(definition, instance bytes, operation); non-trivial = >= 2 fields")
     dc = impl.dc()
     rnd = mkrng(env["seed"], "c17")
@@ -203,6 +220,8 @@ def run(env) -> Result:
     s6_c17.run(env, res, viol, mkrng(env["seed"], "c17:s6"), 6 if tier == "quick" else 80)
     # in-place changes of container-valued members (bypassing __setattr__): equality / hash / bool against the recursive field-wise predicate
     u4_c17.run(env, res, viol, mkrng(env["seed"], "c17:u4"), 40 if tier == "quick" else 800)
+    # definition histories with a fault inside an update block, then ordinary add_field calls: the value laws on the resulting class
+    v4_c17.run(env, res, viol, mkrng(env["seed"], "c17:v4"), 120 if tier == "quick" else 1500)
     res.sample({"field_counts": counts, "colliding_names": RISKY[:8]})
     return res
 
